@@ -11,6 +11,7 @@ import re
 from gemato.exceptions import (
     ManifestSyntaxError,
     ManifestUnsignedData,
+    OpenPGPSigningFailure,
     UnsupportedHash,
     )
 from gemato.util import (
@@ -522,6 +523,16 @@ class ManifestFile:
             with io.StringIO() as data:
                 # get the plain data into a stream
                 self.dump(data, sign_openpgp=False)
+                # GnuPG silently truncates over-long lines when
+                # creating a cleartext signature too: what it would
+                # sign is not what we are asked to write
+                for line in data.getvalue().split('\n'):
+                    if (len(line) >= MAX_SIGNED_LINE_LENGTH // 4
+                            and len(line.encode('utf8', 'surrogatepass'))
+                            >= MAX_SIGNED_LINE_LENGTH):
+                        raise OpenPGPSigningFailure(
+                            'Line too long to be OpenPGP-signed: '
+                            + line[:64] + '...')
                 data.seek(0)
                 openpgp_env.clear_sign_file(data, f, keyid=openpgp_keyid)
         else:
